@@ -386,7 +386,9 @@ pub fn get_presentation_element(element: Element) -> (usize, Element) {
 	let children = element.children();
 	if let Some( (i, child) ) = children.iter().enumerate().find(|(_, &child)| 
 			if let Some(encoding) = as_element(child).attribute_value("encoding") {
-				encoding == "MathML-Presentation"
+				// only an annotation that holds exactly one element can be the presentation element (anything else is reported as illegal MathML by the caller)
+				let annotation_children = as_element(child).children();
+				encoding == "MathML-Presentation" && annotation_children.len() == 1 && annotation_children[0].element().is_some()
 			} else {
 				false
 			})
